@@ -193,6 +193,8 @@ func run(c *hk.Ctx) {
 	mcp.VerifSetYield(nil)
 	runRaceStress(c)
 	runClientReopen(c)
+	runListRootsAcrossReopen(c)
+	runStalledOldWrite(c)
 }
 
 var runNo int
